@@ -230,6 +230,48 @@ theorem credentialGuards_cases (env : TransI.Env) (s : TransI.Server) (w : Respo
               simp [hb] at h
               exact ⟨h.1.symm, Or.inl ⟨h.2.symm, u, rfl, rfl, hb⟩⟩
 
+/-- C16 / C17 (`samlsp/request_tracker_jwt.go` `JWTTrackedRequestCodec.Decode` from `if err != nil {` on — what happens to the claims
+    once the JWT library has parsed and verified the token; the library's audience and issuer checks are arbitrary functions of
+    the claims): a tracked request is returned only if the parse reported no error, the audience and issuer checks (asked with
+    this codec's audience and issuer, as required claims) both passed, and the token says of itself that it is a request-tracking
+    token (`saml-authn-request`); its index is then the token's subject.  A session token of the same SP — same key, audience and
+    issuer, but without that mark — is therefore no tracked request. -/
+theorem trackedRequestClaimsCheck_sound (env : TransM.Env) (s : TransM.JWTTrackedRequestCodec) (claims : TransM.JWTTrackedRequestClaims)
+    (err : GoError) (tr : TransM.TrackedRequest)
+    (h : TransM.trackedRequestClaimsCheck env s claims err = .ok (some tr, none)) :
+    err = none ∧ env.verifyAudience_JWTTrackedRequestClaims claims s.Audience true = true ∧
+    env.verifyIssuer_JWTTrackedRequestClaims claims s.Issuer true = true ∧ claims.SAMLAuthnRequest = true ∧
+    tr = { claims.TrackedRequest with Index := claims.Subject } := by
+  unfold TransM.trackedRequestClaimsCheck at h
+  simp only [Outcome.pure_eq_ok] at h
+  cases err with
+  | some e => simp at h
+  | none =>
+    simp only [Option.isSome_none, Bool.false_eq_true, if_false] at h
+    cases ha : env.verifyAudience_JWTTrackedRequestClaims claims s.Audience true with
+    | false => simp [ha] at h
+    | true =>
+      cases hi : env.verifyIssuer_JWTTrackedRequestClaims claims s.Issuer true with
+      | false => simp [ha, hi] at h
+      | true =>
+        cases hm : claims.SAMLAuthnRequest with
+        | false => simp [ha, hi, hm] at h
+        | true =>
+          simp [ha, hi, hm] at h
+          exact ⟨rfl, rfl, rfl, rfl, h.symm⟩
+
+/-- a token without the request-tracking mark is refused, whatever else it says -/
+theorem trackedRequestClaimsCheck_needs_mark (env : TransM.Env) (s : TransM.JWTTrackedRequestCodec) (claims : TransM.JWTTrackedRequestClaims)
+    (err : GoError) (hm : claims.SAMLAuthnRequest = false) :
+    ∃ e, TransM.trackedRequestClaimsCheck env s claims err = .ok (none, some e) := by
+  unfold TransM.trackedRequestClaimsCheck
+  simp only [Outcome.pure_eq_ok]
+  cases err with
+  | some e => exact ⟨e, by simp⟩
+  | none =>
+    cases ha : env.verifyAudience_JWTTrackedRequestClaims claims s.Audience true <;>
+      cases hi : env.verifyIssuer_JWTTrackedRequestClaims claims s.Issuer true <;> simp [ha, hi, hm]
+
 theorem TransI_no_failures : TransI.transFailures = [] := by decide
 
 /-! non-vacuity -/
